@@ -170,4 +170,55 @@ theorem table_b_row (r : DRow) (hr : r ∈ PtGen.ActivationDat.table) (hb : r.re
       (ne_of_gt hlam) hne, ?_⟩
     exact bActivity_nonneg _ _ _ T (mul_nonneg hp.rateA_nonneg hp.atoms0_nonneg) hplam hlam hne h.exposure
 
+
+theorem table_not_2n_row_ok (r : DRow) (hr : r ∈ PtGen.ActivationDat.table) (hnot2n : r.reaction ≠ .twoN)
+    (mass : ℝ) (env : Env ℝ) (T : ℝ) (h : PhysicalEnv mass env T) :
+    ∃ v, activityRow (PtGen.ActivationDat.consts) (r.toRow : Row ℝ) mass env T = .ok v := by
+  cases hk : r.reaction with
+  | act => rcases table_act_row r hr hk h with h1 | ⟨v, h1, _⟩ <;> exact ⟨_, h1⟩
+  | b => rcases table_b_row r hr hk h with h1 | ⟨v, h1, _⟩ <;> exact ⟨_, h1⟩
+  | twoN => exact absurd hk hnot2n
+
+theorem activityRow_2n_zeroDivision (c : Consts ℝ) (r : Row ℝ) (mass : ℝ) (env : Env ℝ) (T : ℝ)
+    (hr : r.reaction = .twoN) (hin : ¬ (r.fast = true ∧ env.fastRatio = 0)) (hth : r.thalf ≠ 0)
+    (hthp : r.thalfParent ≠ 0) (hco : rateA env r = rateLam c r) :
+    activityRow c r mass env T = .error .zeroDivision := by
+  unfold activityRow
+  simp only [not_omitted hin, Bool.false_eq_true, if_false, hr]
+  have hth' : (r.thalf == 0) = false := by simpa using hth
+  have hthp' : (r.thalfParent == 0) = false := by simpa using hthp
+  simp only [hth', hthp', Bool.false_eq_true, if_false, l2_eq, pa_eq]
+  have d1 : (twoNDen1 (rateA env r) (rateB env r + ratePlam c r) (c.ln2 / r.thalf) == 0) = true := by
+    simp only [beq_iff_eq, twoNDen1]
+    have : c.ln2 / r.thalf - rateA env r = 0 := by rw [hco]; unfold rateLam; ring
+    rw [this, mul_zero]
+  simp only [d1, if_true]
+
+/-- **`'2n'` rows never fail and are never negative for physical inputs at which the three rates
+    (target burn-up, loss of the parent, decay of the product) are pairwise different** -/
+theorem table_2n_row (r : DRow) (hr : r ∈ PtGen.ActivationDat.table) (h2n : r.reaction = .twoN)
+    {mass : ℝ} {env : Env ℝ} {T : ℝ} (h : PhysicalEnv mass env T)
+    (h12 : (rateB env (r.toRow : Row ℝ) + ratePlam (PtGen.ActivationDat.consts) (r.toRow : Row ℝ))
+      - rateA env (r.toRow : Row ℝ) ≠ 0)
+    (h13 : rateLam (PtGen.ActivationDat.consts) (r.toRow : Row ℝ) - rateA env (r.toRow : Row ℝ) ≠ 0)
+    (h23 : rateLam (PtGen.ActivationDat.consts) (r.toRow : Row ℝ)
+      - (rateB env (r.toRow : Row ℝ) + ratePlam (PtGen.ActivationDat.consts) (r.toRow : Row ℝ)) ≠ 0) :
+    activityRow (PtGen.ActivationDat.consts) (r.toRow : Row ℝ) mass env T = .ok none ∨
+    ∃ v, activityRow (PtGen.ActivationDat.consts) (r.toRow : Row ℝ) mass env T = .ok (some v) ∧ 0 ≤ v := by
+  by_cases hin : ((r.toRow : Row ℝ).fast = true ∧ env.fastRatio = 0)
+  · exact Or.inl (by unfold activityRow; simp [hin.1, hin.2])
+  · have hp := table_row_physical r hr h
+    have hok := rowOk_of_mem r hr
+    simp only [rowOk, Bool.and_eq_true, decide_eq_true_eq, h2n] at hok
+    have hrest := hok.2
+    simp only [Bool.or_eq_true, Bool.and_eq_true, decide_eq_true_eq] at hrest
+    have hthp : (r.toRow : Row ℝ).thalfParent ≠ 0 := by
+      rcases hrest with h' | h'
+      · exact absurd h' (by decide)
+      · exact ne_of_gt (by simp only [DRow.toRow]; exact Dec.toNum_pos _ h'.1)
+    refine Or.inr ⟨_, activityRow_2n _ _ mass env T (by simp [DRow.toRow, h2n]) hin (ne_of_gt hp.thalf) hthp
+      h12 h13 h23, ?_⟩
+    refine mul_nonneg hp.rateLam_pos.le (nN3_nonneg _ _ _ _ _ T ?_ h12 h13 h23 h.exposure)
+    exact mul_nonneg (mul_nonneg hp.rateA_nonneg hp.atoms0_nonneg) hp.rateB_nonneg
+
 end PtModel.Activation
